@@ -8,7 +8,7 @@
    ALL pairs of 32-bit integers the primitive has no undefined behaviour and
    returns exactly the documented value.  Nothing else lives in this file. *)
 From Coq Require Import ZArith List Bool.
-From VV Require Import Base.Values Interp.Strategy Cxx.CxxMini Gen.Prims Prims.IntSpec Prims.IntProofs.
+From VV Require Import Base.F64 Base.Values Interp.Strategy Cxx.CxxMini Gen.Prims Prims.IntSpec Prims.IntProofs.
 Import ListNotations.
 Local Open Scope Z_scope.
 
@@ -75,6 +75,16 @@ Theorem C14_ifz_selects : forall lm v0 a1 a2,
   fetched_body lm int_ifz_body [VInt v0; a1; a2] = [0%nat; if v0 =? 0 then 1%nat else 2%nat].
 Proof. intros. split; [apply ifz_ok|apply ifz_fetched]. Qed.
 Print Assumptions C14_ifz_selects.
+
+
+(* the ephemeral integer constant INT: static_cast<int> of the stored
+   parameter is defined exactly when its truncation fits in 32 bits (number::init
+   draws integers in [min, upp), so stored parameters always do) *)
+Theorem C14_number_terminal_defined_iff_in_range : forall lm p z, F64.to_Z_trunc p = Some z ->
+  (is32 z -> run_stub (strategy_of lm int_number_body) (par_stub p) = Val (VInt z)) /\
+  (~ is32 z -> run_stub (strategy_of lm int_number_body) (par_stub p) = Stuck).
+Proof. intros lm p z H. split; [exact (number_ok lm p z H)|exact (number_out_of_range_stuck lm p z H)]. Qed.
+Print Assumptions C14_number_terminal_defined_iff_in_range.
 
 (* non-vacuity: the hypotheses are met by the extreme pair, and the model
    does distinguish defined from undefined behaviour *)
